@@ -231,12 +231,14 @@ func (r *faultRelay) ResetAll() {
 		if p.ender.CompareAndSwap(0, 3) {
 			p.endedAt.Store(h.Now())
 		}
-		for _, c := range []net.Conn{p.client, p.server} {
+		// linger first on both ends: closing one end wakes the pumps, which close the other end the ordinary way
+		for _, c := range []net.Conn{p.server, p.client} {
 			if tc, ok := c.(*net.TCPConn); ok {
 				_ = tc.SetLinger(0)
 			}
-			c.Close()
 		}
+		p.server.Close()
+		p.client.Close()
 	}
 }
 
